@@ -122,7 +122,7 @@ Section Coin.
   (* fn draw_integers(&mut self, num_values: usize, domain_size: usize, nonce: u64) *)
   Definition coin_draw_integers (c : coin) (n dom nonce : Z) : coin * res (list Z) :=
     if negb (is_pow2 dom) then (c, Panic)                  (* assert!(domain_size.is_power_of_two()) *)
-    else if negb (n <? dom) then (c, Panic)                (* assert!(num_values < domain_size) *)
+    else if negb (n <? dom) then (c, Err)                  (* num_values >= domain_size: Err(FailedToDrawIntegers(n, 0, 0)), state untouched *)
     else
       let c0 := mkCoin (merge_with_int (seed c) nonce) 0 in
       match ints_loop draw_tries c0 (dom - 1) n [] with
@@ -182,7 +182,7 @@ Section Coin.
      What a history feeds to the hash.  The seed after a history is a chain
         hash_elements elems  --merge _ d-->  ..  --merge_with_int _ nonce-->  ..
      [absorb] are the links; [op_absorb] says which operations add a link (reseed always; draw_integers iff
-     its two asserts pass — this depends on the arguments only, never on a hash value). *)
+     its two argument checks pass — this depends on the arguments only, never on a hash value). *)
   Inductive absorb : Type :=
   | AData (d : D)
   | ANonce (nonce : Z).
